@@ -137,6 +137,7 @@ func c09AfterDiscover(c *h.Ctx) {
 
 func c09Concurrent(c *h.Ctx) {
 	c09AfterDiscover(c)
+	c09CancelMidBatch(c)
 	pairs := [][2]int{{2, 1}, {2, 0}, {1, 2}, {0, 2}, {2, 2}, {1, 1}}
 	if c.Replay != nil {
 		cs, _ := c.Replay["case"].(map[string]any)
